@@ -130,7 +130,7 @@ Lemma list_erase_spec : forall l pos, Permutation (lowned (list_erase l pos)) (l
   lhead (list_erase l pos) = lhead l /\ lm (list_erase l pos) = lm l.
 Proof.
   intros l pos. unfold list_erase. destruct (nth_error (lnodes l) pos) as [nd|] eqn:E; [|auto].
-  cbn. sp. unfold lowned, ids_of, hd_list. cbn [lm lhead lnodes lfree]. apply tagm_perm.
+  cbn. sp; auto. unfold lowned, ids_of, hd_list. cbn [lm lhead lnodes lfree]. apply tagm_perm.
   rewrite <- (remove_at_perm _ _ _ E) at 2. permn.
 Qed.
 
@@ -224,7 +224,7 @@ Qed.
 
 Lemma linv20 : forall f, linv2 lworld0 (heap0 f).
 Proof.
-  intro f. unfold linv2, linv, heap_ok. cbn. sp; try constructor; try (intros p []).
+  intro f. unfold linv2, linv, heap_ok, lwf. cbn. repeat split; try constructor; try (intros p []).
 Qed.
 
 Lemma ldestroy_spec : forall w h h1 ok, linv2 w h -> ldestroy w h = (h1, ok) ->
